@@ -21,5 +21,8 @@ Definition dispatch_cell (fn : N) (args : list sexp) : sexp :=
   | 7, [v] => with_nv v (fun v => enc_nv (trim v))
   | 8, [s] => with_str s (fun s => enc_str (strip s))
   | 9, [s] => with_str s (fun s => enc_str (escape s))
+  | 10, [] => enc_option (fun c => A c) cleanse_tmp
+  | 11, [v] => with_nv v (fun v => enc_bool (shape_ok v))
+  | 12, [s] => with_str s (fun s => enc_str (unescape s))
   | _, _ => s_badinput
   end.
